@@ -8,22 +8,28 @@ from .spec import SpecError, resolve_type
 BOX = {'Int': 'a.int', 'Bool': 'a.bool', 'F32': 'a.f32', 'F64': 'a.f64', 'Str': 'a.str', 'Slice': 'a.slice', 'Time': 'a.time'}
 
 
+def ctor_for(vc, ts):
+    s = vc.sort_of(ts)
+    if s not in BOX:
+        raise Unsupported('boxing sort ' + s)
+    if s == 'Int' and vc.is_ref_type(ts):
+        return 'a.ptr'
+    return BOX[s]
+
+
 def box(vc, v):
     if v.sort == 'Any':
         return v
     if v.sort == 'Nil':
         return V('a.nil', 'Any', 'any')
-    if v.sort not in BOX:
-        raise Unsupported('boxing sort ' + v.sort)
     if v.ts is None:
         raise Unsupported('boxing untyped value')
-    return V('(%s %d %s)' % (BOX[v.sort], vc.tid(v.ts), v.term), 'Any', 'any')
+    return V('(%s %d %s)' % (ctor_for(vc, v.ts), vc.tid(v.ts), v.term), 'Any', 'any')
 
 
 def is_type(vc, x, ts):
     """x (Any) holds dynamic type ts (concrete)"""
-    s = vc.sort_of(ts)
-    c = BOX[s]
+    c = ctor_for(vc, ts)
     return and_('((_ is %s) %s)' % (c, x.term), '(= (%s.t %s) %d)' % (c, x.term, vc.tid(ts)))
 
 
@@ -31,7 +37,7 @@ def unbox(vc, x, ts):
     s = vc.sort_of(ts)
     if s == 'Any':
         return V(x.term, 'Any', ts)
-    return V('(%s.v %s)' % (BOX[s], x.term), s, ts)
+    return V('(%s.v %s)' % (ctor_for(vc, ts), x.term), s, ts)
 
 
 def fp_lit(hexs, bits):
@@ -542,6 +548,14 @@ class Exec:
         """heap array (and ref term if loop-invariant) named by an assigns target of a callee"""
         vc = self.vc
         # target forms: x.f  (x a callee parameter) ; deeper paths -> whole field
+        if kind == 'elems' and ex[0] != 'field':
+            env = {}
+            for pn, pt in zip(self.callee_param_names(cf, cc, None), self.callee_param_types(cf, cc)):
+                env[pn] = V('dummy', vc.sort_of(pt), pt)
+            ev = SpecEval(vc, cc.pkg, env, st, None)
+            sl = ev.eval(ex)
+            hn, _ = vc.elem_heap(vc.sort_of(self.prog.under(sl.ts)['elem']))
+            return (hn, None)
         if ex[0] != 'field':
             raise ContractError('assigns target must be a field access: %r' % (ex,))
         base = ex[1]
@@ -826,6 +840,9 @@ class Exec:
         """no dangling references: pointers and backing arrays read from memory are allocated"""
         if v.sort == 'Slice':
             self.vc.assume('(< (s.arr %s) %s)' % (v.term, st.alloc), guard)
+        elif v.sort == 'Any' and v.term != 'a.nil':
+            self.vc.assume('(and (=> ((_ is a.ptr) %s) (and (<= 0 (a.ptr.v %s)) (< (a.ptr.v %s) %s))) (=> ((_ is a.slice) %s) (< (s.arr (a.slice.v %s)) %s)))'
+                           % (v.term, v.term, v.term, st.alloc, v.term, v.term, st.alloc), guard)
         elif v.sort == 'Int' and v.ts and self.prog.types.get(v.ts) and self.prog.under(v.ts)['k'] in ('ptr', 'map'):
             self.vc.assume('(< %s %s)' % (v.term, st.alloc), guard)
 
@@ -914,6 +931,16 @@ class Exec:
         amap = dict(self.entry_env)
         for kind, ex, text in c.assigns or []:
             ev = self.spec(self.entry_env, self.entry_state)
+            if kind == 'elems' and ex[0] != 'field':
+                try:
+                    sl = ev.eval(ex)
+                except SpecError as e:
+                    raise ContractError('%s: assigns %s: %s' % (short_fn(self.prog, self.f.name), text, e))
+                if sl.sort != 'Slice':
+                    raise ContractError('assigns %s[*]: not a slice' % text)
+                en, _ = self.vc.elem_heap(self.vc.sort_of(self.prog.under(sl.ts)['elem']))
+                out.append((en, '(s.arr %s)' % sl.term))
+                continue
             if ex[0] != 'field':
                 raise ContractError('assigns target must be a field access: %s' % text)
             try:
@@ -1095,6 +1122,9 @@ class Exec:
             zv = vc.zero_of_sort(s)
             vt = vc.define(self.nm(ins['n'] + '$v'), s, ite(okn, val.term, zv))
             self.vals[ins['n']] = [V(vt, s, ats), V(okn, 'Bool', 'bool')]
+            if atd['k'] != 'iface':
+                vc.range_assume(V(vt, s, ats), self.reach)
+                self.ref_assume(V(vt, s, ats), self.st, self.reach)
         else:
             self.oblige('typeassert', 'type assertion to %s' % short_fn(self.prog, ats), self.reach, ok, ['C03'], ins.get('line', 0))
             vc.assume(ok, self.reach)
@@ -1307,6 +1337,18 @@ class Exec:
     def havoc_target(self, cc, env, kind, ex, text, pre, post, line, site):
         vc = self.vc
         ev = SpecEval(vc, cc.pkg, env, pre, None)
+        if kind == 'elems' and ex[0] != 'field':
+            try:
+                sl = ev.eval(ex)
+            except SpecError as e:
+                raise ContractError('assigns %s: %s' % (text, e))
+            es = vc.sort_of(self.prog.under(sl.ts)['elem'])
+            en, ehs = vc.elem_heap(es)
+            tgt_ref = '(s.arr %s)' % sl.term
+            fresh = vc.declare(en + '$c', 'Arr:' + es)
+            post.set(en, vc.define(en, ehs, '(store %s %s %s)' % (post.get(en, ehs), tgt_ref, fresh)))
+            self.caller_frame(en, tgt_ref, text, line, site)
+            return
         if ex[0] != 'field':
             raise ContractError('assigns target must be a field access: %s' % text)
         try:
@@ -1339,6 +1381,9 @@ class Exec:
             vc.range_assume(fv, self.reach)
             tgt_ref = ref
             hname = hn
+        self.caller_frame(hname, tgt_ref, text, line, site)
+
+    def caller_frame(self, hname, tgt_ref, text, line, site):
         # caller's own frame
         topc = self.top.contract
         if topc is not None and topc.assigns is not None:
